@@ -99,7 +99,9 @@ func genSegment(t *rapid.T, label string) (decoded, wire string) {
 }
 
 func genPath(t *rapid.T) (decoded, wire string) {
-	prefixes := [][]string{{"api", "v1", "namespaces", "*", "pods", "*"}, {"apis", "apps", "v1", "namespaces", "*", "deployments"}, {"api", "v1", "nodes", "*", "proxy", "*", "*"}, {"healthz", "*"}, {"*", "*"}, {"api", "v1", "pods"}, {"version"}, {"apis", "*", "*", "*", "*"}}
+	prefixes := [][]string{{"api", "v1", "namespaces", "*", "pods", "*"}, {"apis", "apps", "v1", "namespaces", "*", "deployments"}, {"api", "v1", "nodes", "*", "proxy", "*", "*"}, {"healthz", "*"}, {"*", "*"}, {"api", "v1", "pods"}, {"version"}, {"apis", "*", "*", "*", "*"},
+		// a path that begins with two slashes and looks like an authority: still a path
+		{"", "other.example:1", "healthz", "*"}}
 	pre := prefixes[rapid.IntRange(0, len(prefixes)-1).Draw(t, "prefix")]
 	var d, w []string
 	for i, s := range pre {
